@@ -26,6 +26,9 @@ pub struct CountingTimeout {
     last_event_count: Cell<usize>,
     polls_since_event: Cell<u64>,
     pub runaway_cap: u64,
+    /// when present, expiry is decided by the engine's own wall-clock limit (the type the CLI, the bot
+    /// runner and the wasm front end pass to the search); `expire_at` then only caps the run
+    wall: Option<chess_engine::DurationTimeout>,
 }
 
 pub struct Runaway;
@@ -41,7 +44,13 @@ impl CountingTimeout {
             last_event_count: Cell::new(0),
             polls_since_event: Cell::new(0),
             runaway_cap: 5000,
+            wall: None,
         }
+    }
+    pub fn with_wall_clock(limit: std::time::Duration, cap_polls: u64) -> Self {
+        let mut t = CountingTimeout::new(cap_polls);
+        t.wall = Some(chess_engine::DurationTimeout::new(limit));
+        t
     }
 }
 
@@ -56,7 +65,8 @@ impl Timeout for CountingTimeout {
         } else {
             self.polls_since_event.set(self.polls_since_event.get() + 1);
         }
-        if k >= self.expire_at {
+        let expired = k >= self.expire_at || self.first_true.get().is_some() || self.wall.as_ref().map(|w| w.is_complete()).unwrap_or(false);
+        if expired {
             if self.first_true.get().is_none() {
                 self.first_true.set(Some(k));
                 self.phase.set(Some((verif::last_event(), self.polls_since_event.get() > 0)));
@@ -141,6 +151,8 @@ impl tracing::Subscriber for Sink {
 thread_local! {
     /// when set, `run_search` runs the search with the `Sink` subscriber installed
     pub static TRACED: Cell<bool> = const { Cell::new(false) };
+    /// when set (microseconds), `run_search` lets the engine's own DurationTimeout decide the expiry
+    pub static WALL_US: Cell<Option<u64>> = const { Cell::new(None) };
 }
 
 thread_local! {
@@ -201,7 +213,10 @@ pub fn run_search(board: &Board, tf: &ThreeFold, expire_at: u64, positional: boo
     let _ = verif::take_events();
     // large budgets only bound the work; they shrink when one poll stands for many more nodes
     let expire_at = if expire_at >= 20_000 && budget_scale() > 1.0 { ((expire_at as f64 / budget_scale()) as u64).max(2_000) } else { expire_at };
-    let t = CountingTimeout::new(expire_at);
+    let t = match WALL_US.with(|w| w.get()) {
+        Some(us) => CountingTimeout::with_wall_clock(std::time::Duration::from_micros(us), expire_at),
+        None => CountingTimeout::new(expire_at),
+    };
     let slot = SLOT.with(|x| x.get());
     let reuse = REUSE_ON.with(|f| f.get());
     let kept = if reuse { PERSISTENT.with(|p| p.borrow_mut()[slot].take()) } else { None };
@@ -557,6 +572,16 @@ pub fn c11(c: &mut Collector, seed: u64, shard: u64, nshards: u64, thorough: boo
                 judge_c11(c, ep, &board, &tf, with_tf, &legal, k, positional);
             }
             TRACED.with(|f| f.set(false));
+        }
+        // the engine's own wall-clock limit type decides the expiry (a nondeterministic instant; the
+        // oracle does not depend on which one): 0, 1 us, 50 us, 1 ms, capped at 200000 polls
+        if pi % 10 == 0 {
+            for us in [0u64, 1, 50, 1000] {
+                WALL_US.with(|w| w.set(Some(us)));
+                c.count("wall-clock-limit-searches");
+                judge_c11(c, ep, &board, &tf, with_tf, &legal, 200_000, positional);
+                WALL_US.with(|w| w.set(None));
+            }
         }
         // terminal positions / drawn-by-clock positions: many cheap passes; go far beyond 65536 polls
         if legal.is_empty() || ep.pos.half >= 99 {
